@@ -21,10 +21,12 @@ DEMODIR=$(python3 -c "import json;print(json.load(open('$SRC/meta.json'))['demo_
 DEMORUN=$(python3 -c "import json;print(json.load(open('$SRC/meta.json'))['demo_run'])")
 if ! go build ./... >>"$LOG" 2>&1; then echo "RESULT $ID build-fails"; exit 1; fi
 PKGS="./fsm/... ./airgapped ./client/services/... ./client/repositories/... ./client/modules/... ./client/api/... ./client/types/... ./storage/file_storage ./pkg/... ./cmd/dc4bc_cli ./dkg/..."
+# the project's tests use fixed /tmp paths: every run gets a private /tmp (mount namespace); /tmp/wt stays visible
+PRIV="mkdir -p /run/oldtmp && mount --rbind /tmp /run/oldtmp && mount -t tmpfs tmpfs /tmp && mkdir -p /tmp/wt && mount --rbind /run/oldtmp/wt /tmp/wt && cd $WT && "
 ok=0
 for try in 1 2 3 4 5 6; do
   # the airgapped tests use the fixed path /tmp/airgapped_test: give this run a private one (mount namespace)
-  unshare -m bash -c "mkdir -p /tmp/airgapped_test && mount -t tmpfs tmpfs /tmp/airgapped_test && go test -count=1 -vet=off $PKGS" > "$LOG.suite" 2>&1 && { ok=1; break; }
+  unshare -m bash -c "$PRIV go test -count=1 -vet=off $PKGS" > "$LOG.suite" 2>&1 && { ok=1; break; }
   # airgapped uses a fixed /tmp path shared with other jobs: retry on that collision only
   grep -q "resource temporarily unavailable" "$LOG.suite" || break
   sleep 20
@@ -33,7 +35,6 @@ cat "$LOG.suite" >> "$LOG"
 if [ $ok -ne 1 ]; then echo "RESULT $ID suite-fails-with-change"; grep -E "^(--- FAIL|FAIL|panic)" "$LOG.suite" | head; exit 1; fi
 mkdir -p "$DEMODIR"
 cp "$SRC/demo_test.go" "$DEMODIR/zz_demo_${ID//-/_}_test.go"
-PRIV='mkdir -p /tmp/airgapped_test && mount -t tmpfs tmpfs /tmp/airgapped_test && '
 if (timeout 600 unshare -m bash -c "$PRIV$DEMORUN") >>"$LOG" 2>&1; then echo "RESULT $ID demo-passes-with-change(should fail)"; exit 1; fi
 git reset -q --hard HEAD >>"$LOG" 2>&1   # never `git stash`: the stash is shared by all worktrees (untracked demo file stays)
 if ! (timeout 600 unshare -m bash -c "$PRIV$DEMORUN") >>"$LOG" 2>&1; then echo "RESULT $ID demo-fails-without-change(should pass)"; tail -30 "$LOG"; exit 1; fi
